@@ -184,12 +184,73 @@ fn run_case(rep: &Report, ch: &mut Chooser, fmt: &str, local: &mut Vec<(u64, boo
     if rep.want_sample() && ch.choices().iter().filter(|x| **x != 0).count() >= 3 { rep.sample(c.desc.clone()); }
 }
 
+/// The access paths of merged regions and tables agree on the repository's own fixtures: by name = by index = the loaded list
+/// (xlsx), by name = by index (xls); a table read owned = read borrowed; every region lies inside the sheet.
+fn corpus_paths(rep: &Report) {
+    use calamine::{Reader, Xls, Xlsx};
+    let files = crate::props::corpus::fixtures(&["xlsx", "xlsm", "xlam", "xls", "xla"]);
+    let regions = std::sync::atomic::AtomicU64::new(0);
+    let tables_seen = std::sync::atomic::AtomicU64::new(0);
+    files.par_iter().for_each(|(fname, bytes)| {
+        crate::engine::crumb::set_case(&format!("C17 fixture {fname}"));
+        let is_xls = fname.ends_with(".xls") || fname.ends_with(".xla");
+        let r = guarded(|| -> Vec<(String, String)> {
+            let mut bad = vec![];
+            if is_xls {
+                let Ok(wb) = Xls::new(Cursor::new(bytes.clone())) else { return bad };
+                for (i, n) in wb.sheet_names().iter().enumerate() {
+                    let (a, b) = (wb.worksheet_merge_cells(n), wb.worksheet_merge_cells_at(i));
+                    if a != b { bad.push(("xls/name-vs-index".into(), format!("sheet {n:?}: by name {a:?}, by index {b:?}"))); }
+                    regions.fetch_add(a.map(|v| v.len()).unwrap_or(0) as u64, std::sync::atomic::Ordering::Relaxed);
+                }
+                return bad;
+            }
+            let Ok(mut wb) = Xlsx::new(Cursor::new(bytes.clone())) else { return bad };
+            let names = wb.sheet_names();
+            let loaded = wb.load_merged_regions().is_ok();
+            for (i, n) in names.iter().enumerate() {
+                let a = wb.worksheet_merge_cells(n).map(|r| r.map_err(|e| format!("{e:?}").chars().take(40).collect::<String>()));
+                let b = wb.worksheet_merge_cells_at(i).map(|r| r.map_err(|e| format!("{e:?}").chars().take(40).collect::<String>()));
+                if a != b { bad.push(("xlsx/name-vs-index".into(), format!("sheet {n:?}: by name {a:?}, by index {b:?}"))); }
+                if let (true, Some(Ok(v))) = (loaded, &a) {
+                    let l: Vec<Dimensions> = wb.merged_regions_by_sheet(n).iter().map(|(_, _, d)| **d).collect();
+                    if &l != v { bad.push(("xlsx/loaded-vs-direct".into(), format!("sheet {n:?}: loaded {l:?}, direct {v:?}"))); }
+                    for d in v { if d.start.0 > d.end.0 || d.start.1 > d.end.1 || d.end.0 > 1_048_575 || d.end.1 > 16_383 { bad.push(("xlsx/region-outside-sheet".into(), format!("sheet {n:?}: {d:?}"))); } }
+                    regions.fetch_add(v.len() as u64, std::sync::atomic::Ordering::Relaxed);
+                }
+            }
+            if wb.load_tables().is_ok() {
+                let tn: Vec<String> = wb.table_names().iter().map(|s| s.to_string()).collect();
+                for t in &tn {
+                    tables_seen.fetch_add(1, std::sync::atomic::Ordering::Relaxed);
+                    let own = wb.table_by_name(t).map(|t| (t.name().to_string(), t.sheet_name().to_string(), t.columns().to_vec(), crate::model::sheet::range_digest(t.data()))).map_err(|e| format!("{e:?}"));
+                    let bor = wb.table_by_name_ref(t).map(|t| (t.name().to_string(), t.sheet_name().to_string(), t.columns().to_vec(), crate::model::sheet::range_digest(&crate::model::sheet::range_ref_to_data(t.data())))).map_err(|e| format!("{e:?}"));
+                    if own != bor { bad.push(("xlsx/table-owned-vs-borrowed".into(), format!("table {t:?}: owned {own:?}, borrowed {bor:?}"))); }
+                    if let Ok((_, sheet, _, _)) = &own { if !names.contains(sheet) { bad.push(("xlsx/table-sheet-unknown".into(), format!("table {t:?} names sheet {sheet:?}"))); } else if !wb.table_names_in_sheet(sheet).iter().any(|x| *x == t) { bad.push(("xlsx/table-not-listed-in-its-sheet".into(), format!("table {t:?} on {sheet:?}"))); } }
+                }
+            }
+            bad
+        });
+        rep.eval(1);
+        let replay = || Replay { json: json!({"fixture": fname}), files: vec![] };
+        match r {
+            Err(p) => { let site = normalise_site(p.rsplit(" @ ").next().unwrap_or("")); rep.fail(&format!("corpus/panic/{site}"), &format!("{fname}: panicked: {p}"), replay); }
+            Ok(bad) => { for (k, d) in &bad { rep.fail(&format!("corpus/{k}"), &format!("{fname}: {d}"), replay); } rep.case(hash_of(&("corpus", fname)), true, hash_of(&format!("{bad:?}"))); }
+        }
+        crate::engine::crumb::clear();
+    });
+    rep.extra("fixture_files", json!(files.len()));
+    rep.extra("fixture_merged_regions", json!(regions.load(std::sync::atomic::Ordering::Relaxed)));
+    rep.extra("fixture_tables", json!(tables_seen.load(std::sync::atomic::Ordering::Relaxed)));
+}
+
 pub fn check(rep: &Report) {
+    corpus_paths(rep);
     let t = crate::thorough(&rep.tier);
     rep.rule("workbooks = 1-2 sheets x 0-3 merged regions per sheet drawn in every order from {A1:B2, Z1:AA2, AZ9:BA10, the last two rows/columns of the sheet, a 1-row wide region} (xls: one or two MERGECELLS records) x (xlsx) 0-2 tables at 5 placements (inside / over the edge of / outside the used range, single column) x header rows 0/1 x totals rows 0/1 x explicit default counts x the other elements Excel writes into a table part (autoFilter, calculated column, tableStyleInfo, x14:table alt text in extLst) x table on either sheet x a second sheet without values x prefix; all choice vectors with <= d deviations; every API path of the statement; non-trivial = non-default; distinct by file bytes");
     rep.assume("tables always keep at least one data row; table name == displayName");
     let stats = Mutex::new(Stats::default());
-    let dev = if t { 8 } else { 5 };
+    let dev = if t { 6 } else { 5 };
     ["xlsx", "xls"].par_iter().for_each(|fmt| {
         crate::engine::crumb::set_job(&format!("C17 format={fmt}"));
         let mut st = Stats::default();
@@ -210,6 +271,7 @@ pub fn check(rep: &Report) {
 pub fn replay(path: &str) -> i32 {
     let Ok(s) = std::fs::read_to_string(path) else { return 2 };
     let v: serde_json::Value = serde_json::from_str(&s).unwrap();
+    if let Some(c) = crate::props::corpus::replay_fixture(&v) { return c; }
     let choices: Vec<u32> = v["choices"].as_array().unwrap().iter().map(|x| x.as_u64().unwrap() as u32).collect();
     let fmt = v["format"].as_str().unwrap().to_string();
     let mut outs = vec![];
